@@ -50,7 +50,7 @@ OPDESC = {
 }
 
 
-def _wstep(prefix, op, name, fdatasync, appendmode=0, intrs=1, shorts=1, tier="quick", timeout=300):
+def _wstep(prefix, op, name, fdatasync, appendmode=0, intrs=1, shorts=1, tier="quick", timeout=600):
     defs = {"VP_OP": op, "VP_NAME": name, "VP_INTRS": intrs, "VP_SHORTS": shorts, "VP_APPENDMODE": appendmode}
     nm = "%s.wfile-step-%s-%s-%s%s" % (prefix, OPTAG[op], NAMETAG[name], "fdatasync" if fdatasync else "fsync",
                                        "-appendfile" if appendmode else "")
@@ -66,11 +66,23 @@ def _wstep(prefix, op, name, fdatasync, appendmode=0, intrs=1, shorts=1, tier="q
                       "<=%d EINTR and <=%d short writes in the step" % (NAMES[name], intrs, shorts))
 
 
-def _wseq(prefix, name, k, fdatasync, sizes, ops, close=1, appendmode=0, intrs=1, shorts=1, fails=1, recover=0, tier="quick", timeout=300):
+def _wseq(prefix, name, k, fdatasync, sizes, ops, close=1, appendmode=0, intrs=1, shorts=1, fails=1, recover=0, tier="quick", timeout=600):
     defs = {"VP_OP": 0, "VP_NAME": name, "VP_K": k, "VP_INTRS": intrs, "VP_SHORTS": shorts, "VP_FAILS": fails,
             "VP_APPENDMODE": appendmode, "VP_CLOSE": close,
             "VP_S0": sizes[0], "VP_S1": sizes[1], "VP_S2": sizes[2], "VP_O0": ops[0], "VP_O1": ops[1], "VP_O2": ops[2]}
-    if any(s >= 65536 for s in sizes[:k]):
+    pos, direct = 0, False
+    for i in range(k):          # does some append reach the unbuffered write?
+        copy = min(sizes[i], 65536 - pos)
+        rest = sizes[i] - copy
+        if rest == 0:
+            pos += copy
+        elif rest < 65536:
+            pos = rest
+        else:
+            pos, direct = 0, True
+        if ops[i]:
+            pos = 0
+    if direct:
         defs["VP_WDIRECT"] = None
     if 2 in ops[:k]:
         defs["VP_WSYNC"] = None
@@ -96,7 +108,7 @@ def _wseq(prefix, name, k, fdatasync, sizes, ops, close=1, appendmode=0, intrs=1
 VP_UNWIND = 10
 
 
-def _io(prefix, io, shorts, intrs, tier="quick", timeout=300):
+def _io(prefix, io, shorts, intrs, tier="quick", timeout=600):
     nm = "%s.%s-loop-S%d-I%d" % (prefix, ("ldb_write", "ldb_read", "ldb_pread")[io], shorts, intrs)
     loop = ("ldb_write", "ldb_read", "ldb_pread")[io]
     return Obl(nm, "envunix/ldbio.c", real=[], include_real=["util/env.c", "util/env_unix_impl.h"], kit=["vp_nondet.c"],
@@ -112,25 +124,25 @@ def _io(prefix, io, shorts, intrs, tier="quick", timeout=300):
 
 
 def wfile_obls(prefix):
+    TH = {"tier": "thorough", "timeout": 1800}
     out = [_io(prefix, 0, 2, 2), _io(prefix, 0, 3, 2, tier="thorough", timeout=1200)]
-    # inductive steps: log-like name (no directory sync) and MANIFEST name, both sync configurations
-    for fds in (1, 0):
-        for op in (1, 2, 3, 4):
-            for name in (0, 1):
-                if op in (1, 2) and name == 1 and fds == 0:
-                    continue    # append/flush do not depend on the name class; keep one cross-configuration
-                out.append(_wstep(prefix, op, name, fds))
-    out.append(_wstep(prefix, 5, 0, 1))
-    for name in (0, 1, 2, 3, 4, 5):
-        out.append(_wstep(prefix, 6, name, 1, appendmode=name & 1, intrs=2))
-    out.append(_wstep(prefix, 1, 0, 1, appendmode=1))
-    # other spellings of the name: only sync depends on it
+    # inductive steps.  fdatasync=0 is the flag set of lib/vp.py (fsync only), fdatasync=1 what CMake/autotools
+    # define on Linux (fdatasync with ENOSYS fallback); only sync depends on it.
+    out += [_wstep(prefix, 1, 0, 0),                      # append
+            _wstep(prefix, 2, 0, 0),                      # flush
+            _wstep(prefix, 3, 0, 0), _wstep(prefix, 3, 1, 0), _wstep(prefix, 3, 1, 1),   # sync: log, MANIFEST, MANIFEST+fdatasync
+            _wstep(prefix, 4, 0, 0),                      # close + destroy
+            _wstep(prefix, 6, 1, 0, intrs=2),             # create (MANIFEST name, truncating)
+            _wstep(prefix, 6, 0, 0, appendmode=1, intrs=2)]   # create (log name, appending)
+    out += [_wstep(prefix, 1, 1, 1, **TH), _wstep(prefix, 1, 0, 1, appendmode=1, **TH), _wstep(prefix, 2, 1, 1, **TH),
+            _wstep(prefix, 3, 0, 1, **TH), _wstep(prefix, 4, 1, 1, **TH), _wstep(prefix, 5, 0, 1, **TH)]
+    # other spellings of the name: MANIFEST detection (create) and the directory that sync opens
     for name in (2, 3, 4, 5):
-        out.append(_wstep(prefix, 3, name, 1))
-    # whole runs with concrete sizes straddling 64 KiB
+        out.append(_wstep(prefix, 3, name, 1, **TH))
+        out.append(_wstep(prefix, 6, name, 1, appendmode=name & 1, intrs=2, **TH))
     # whole runs, everything succeeds (concrete, cheap): the byte count closes
     out.append(_wseq(prefix, 1, 3, 1, (65535, 2, 140000), (0, 2, 1), intrs=0, shorts=0, fails=0))
-    out.append(_wseq(prefix, 0, 3, 0, (100000, 65536, 1), (1, 0, 2), intrs=0, shorts=0, fails=0, appendmode=1))
+    out.append(_wseq(prefix, 0, 3, 0, (100000, 65536, 1), (1, 0, 2), intrs=0, shorts=0, fails=0, appendmode=1, **TH))
     # whole runs with one failing call, one short write, one EINTR at symbolic places
     T = {"tier": "thorough", "timeout": 2400}
     out.append(_wseq(prefix, 0, 2, 1, (65535, 2, 0), (0, 1, 0), **T))
@@ -145,7 +157,7 @@ LOCK_FUNCS = ["ldb_lock_file", "ldb_unlock_file", "ldb_flock", "ldb_open", "ldb_
               "rb_tree_insert_fixup", "rb_tree_remove_node", "rb_tree_remove_fixup"]
 
 
-def _lock(prefix, script, wit, posix=1, realrbt=0, tier="quick", timeout=300, known=None):
+def _lock(prefix, script, wit, posix=1, realrbt=0, tier="quick", timeout=600, known=None):
     """script: list of ops, 0/1/2 = lock name n (names 0 and 1 are the same file), 10+j = unlock handle of step j"""
     k = len(script)
     tag = "".join(("L%d" % o) if o < 10 else ("U%d" % (o - 10)) for o in script)
@@ -213,7 +225,7 @@ MISC = {
 }
 
 
-def _misc(prefix, m, fdatasync=1, shorts=1, intrs=1, reads=1000, kept=1, tier="quick", timeout=300):
+def _misc(prefix, m, fdatasync=1, shorts=1, intrs=1, reads=1000, kept=1, tier="quick", timeout=600):
     tag, desc, funcs = MISC[m]
     nm = "%s.%s%s" % (prefix, tag, "" if fdatasync else "-nopread-fsync")
     if m == 4:
@@ -230,10 +242,11 @@ def _misc(prefix, m, fdatasync=1, shorts=1, intrs=1, reads=1000, kept=1, tier="q
 
 
 def rwmisc_obls(prefix):
+    TH = {"tier": "thorough", "timeout": 1800}
     out = [_io(prefix, 1, 2, 2), _io(prefix, 2, 2, 2)]
     out += [_misc(prefix, 1), _misc(prefix, 2), _misc(prefix, 2, fdatasync=0), _misc(prefix, 3), _misc(prefix, 4, kept=1, intrs=0),
-            _misc(prefix, 4, kept=0, shorts=0, intrs=0), _misc(prefix, 4, kept=2), _misc(prefix, 4, kept=1, fdatasync=0, intrs=0),
-            _misc(prefix, 5, intrs=0, shorts=0), _misc(prefix, 6, reads=2, shorts=1, intrs=0)]
+            _misc(prefix, 4, kept=0, shorts=0, intrs=0), _misc(prefix, 4, kept=2), _misc(prefix, 4, kept=1, fdatasync=0, intrs=0, **TH),
+            _misc(prefix, 5, intrs=0, shorts=0, **TH), _misc(prefix, 6, reads=2, shorts=1, intrs=0)]
     out += [_io(prefix, 1, 3, 2, tier="thorough", timeout=1200), _io(prefix, 2, 3, 2, tier="thorough", timeout=1200)]
     return out
 
